@@ -7,6 +7,7 @@ SPDX-License-Identifier: Apache-2.0
 package peer
 
 import (
+	"bytes"
 	"encoding/base64"
 	"encoding/json"
 	"errors"
@@ -61,12 +62,57 @@ func (v *VDR) storeDID(doc *did.Doc, by *[]modifiedBy) error { //nolint: unparam
 		return errors.New("DID and document are mandatory")
 	}
 
+	// a peer DID is bound to the first document stored for it (there is no update operation, see Update): a
+	// different document presented later under the same DID must not replace what the DID resolves to.
+	if err := v.checkNotReplacing(doc); err != nil {
+		return err
+	}
+
 	val, err := genesisDeltaBytes(doc, by)
 	if err != nil {
 		return err
 	}
 
 	return v.store.Put(doc.ID, val)
+}
+
+// checkNotReplacing fails if a document with different content is already stored under the DID of doc.
+func (v *VDR) checkNotReplacing(doc *did.Doc) error {
+	stored, err := v.Get(doc.ID)
+	if errors.Is(err, vdrapi.ErrNotFound) {
+		return nil
+	}
+
+	if err != nil {
+		return fmt.Errorf("checking for a stored document of did [%s]: %w", doc.ID, err)
+	}
+
+	storedBytes, err := stored.JSONBytes()
+	if err != nil {
+		return fmt.Errorf("JSON marshalling of stored document failed: %w", err)
+	}
+
+	// the stored document went through one serialize/parse round trip: compare with the same form of the new one
+	docBytes, err := doc.JSONBytes()
+	if err != nil {
+		return fmt.Errorf("JSON marshalling of document failed: %w", err)
+	}
+
+	parsed, err := did.ParseDocument(docBytes)
+	if err != nil {
+		return fmt.Errorf("document ParseDocument() failed: %w", err)
+	}
+
+	parsedBytes, err := parsed.JSONBytes()
+	if err != nil {
+		return fmt.Errorf("JSON marshalling of document failed: %w", err)
+	}
+
+	if !bytes.Equal(storedBytes, parsedBytes) {
+		return fmt.Errorf("did [%s] is already stored with a different document", doc.ID)
+	}
+
+	return nil
 }
 
 // UnsignedGenesisDelta returns a marshaled and base64-encoded json array containing a single peer DID delta
